@@ -214,13 +214,14 @@ class Splitter:
         self.feats = set()
         self.unique_blocks = unique_blocks
         self.fam = 0
+        self.dynamic = False  # serialise component tags through {% component "dynamic" is=... %}
 
     def name(self, what):
         self.k += 1
         return f"{self.prefix}_{what}{self.k}"
 
     def ser(self, nodes):
-        return pg.ser_nodes(nodes, self.reg)
+        return pg.ser_nodes(nodes, self.reg, self.dynamic)
 
     def split(self, nodes, levels=None):
         """-> template source (string) equivalent to ser(nodes)"""
@@ -348,15 +349,19 @@ def shard_compose(spec, rec):
                 break
         else:
             continue
-        case = {"kind": "compose", "program": prog, "split_seed": prng.random(), "unique_blocks": prng.random() < 0.5, "seed": [spec["seed"], spec["idx"], i]}
+        case = {"kind": "compose", "program": prog, "split_seed": prng.random(), "unique_blocks": prng.random() < 0.5, "dynamic": prng.random() < 0.3, "seed": [spec["seed"], spec["idx"], i]}
         nt = run_compose_case(env, rec, case)
         rec.case(prog, nontrivial=bool(nt))
 
 
-def build_family(env, prog, split_seed, unique_blocks=False):
-    """-> (Built flattened, Built family, locmem names, features, classes split)"""
+def build_family(env, prog, split_seed, unique_blocks=False, dynamic=False):
+    """-> (Built flattened, Built family, locmem names, features, classes split).  With ``dynamic`` every component
+    tag of the PAGE (flattened and family alike) is written through the dynamic component."""
     flat = env.build(prog)
     fam = env.build(prog)
+    if dynamic:
+        flat.page_src = flat.dynamic_source()
+        fam.page_src = fam.dynamic_source()
     srng = random.Random(split_seed)
     sp = Splitter(srng, fam.reg, fam.prefix, unique_blocks=unique_blocks)
     split_classes = []
@@ -364,7 +369,8 @@ def build_family(env, prog, split_seed, unique_blocks=False):
         if srng.random() < 0.6:
             cls.template = sp.split(prog["classes"][cname]["template"])
             split_classes.append(cname)
-    if srng.random() < 0.5:
+    if srng.random() < (0.8 if dynamic else 0.5):
+        sp.dynamic = dynamic
         fam.page_src = sp.split(prog["page"])
         split_classes.append("<page>")
     boot.LOCMEM.update(sp.templates)
@@ -390,7 +396,7 @@ def nested_extends(prog, mode, split_classes, unique):
 
 
 def renamed_agrees(env, prog, mode, case):
-    flat, fam, names, feats, split_classes = build_family(env, prog, case["split_seed"], unique_blocks=True)
+    flat, fam, names, feats, split_classes = build_family(env, prog, case["split_seed"], unique_blocks=True, dynamic=bool(case.get("dynamic")))
     try:
         ref = e1run.reference(prog, mode)
         limit = 20 * len(ref[2].instances) + 50
@@ -450,8 +456,10 @@ class BlockReentry:
 def run_compose_case(env, rec, case):
     prog = case["program"]
     unique = bool(case.get("unique_blocks"))
-    flat, fam, names, feats, split_classes = build_family(env, prog, case["split_seed"], unique_blocks=unique)
+    flat, fam, names, feats, split_classes = build_family(env, prog, case["split_seed"], unique_blocks=unique, dynamic=bool(case.get("dynamic")))
     try:
+        if case.get("dynamic"):
+            rec.count("compose_feature:page-tags-through-dynamic-component")
         for f in feats:
             rec.count("compose_feature:" + f)
         nsplit = len([c for c in split_classes if c != "<page>"])
